@@ -41,15 +41,17 @@ prop("C10", [
                        "timed-history-with-delivery-after-possible-expiry", "large-buffer-history"])
 
 prop("C19", [
-    S(REASM, "^TestC19(StreamCloses)?Regress$", kind="plain"),
+    S(REASM, "^TestC19(StreamCloses|Nested)?Regress$", kind="plain"),
     S(REASM, "^TestC19$", q=4000, t=40000, shards=16),
     S(REASM, "^TestC19StreamCloses$", q=3000, t=40000, shards=16),
+    S(REASM, "^TestC19Nested$", q=600, t=8000, shards=16),
     S(REASM, "^TestC19Large$", kind="plain", timeout_t=3000),
 ], REASM_ASSUME + ["time is real: expiry is decided three-valued from harness clock brackets; only definite answers are asserted",
                    "what a push made after Close does itself is not asserted (only that later Maintain/Close fail and deliver nothing)"],
    nontrivial_classes=["history-with-timeout-only-delivery", "history-with-call-after-close", "history-with-push-after-close",
                        "decision-definitely-expired", "decision-definitely-live", "large-stale-buffer-history",
-                       "stream-closes-while-call-has-more-to-deliver-and-2-events-are-buffered"])
+                       "stream-closes-while-call-has-more-to-deliver-and-2-events-are-buffered",
+                       "nested-call-after-sleep-delivers-expired-events"])
 
 PARSE = "props/parse"
 
@@ -113,6 +115,7 @@ prop("C13", [
     S(RULES, "^TestC13HeaderWords$", kind="plain", timeout_t=3000),
     S(RULES, "^TestC13ValueSweep$", kind="plain", timeout_t=3000),
     S(RULES, "^TestC13FieldCount$", kind="plain"),
+    S(RULES, "^TestC13FieldValueGrid$", kind="plain"),
     S(RULES, "^TestC13$", q=40000, t=1000000, shards=16, timeout_t=3000),
     S(RULES, "", kind="fuzz", fuzz="FuzzToCommandLine", fuzztime_t=100),
     S(RULES, "", kind="fuzz", fuzz="FuzzFlagsParse", fuzztime_t=100),
@@ -120,7 +123,7 @@ prop("C13", [
 ], ["typed-nil rule pointers are not Rule values and are not passed",
     "allocation bound: 1 MiB + 64 x input length per call, measured with runtime/metrics in a single-threaded section",
     "absence of panics is sampled, not proved; hang watchdog 30 s per case"],
-   nontrivial_classes=["kind-build", "kind-decode", "kind-parse", "value-sweep", "arch-x-syscall-sweep", "passed-first-stage-build", "passed-first-stage-decode", "passed-first-stage-parse"])
+   nontrivial_classes=["kind-build", "kind-decode", "kind-parse", "value-sweep", "field-value-grid", "arch-x-syscall-sweep", "passed-first-stage-build", "passed-first-stage-decode", "passed-first-stage-parse"])
 
 prop("C14", [
     S(RULES, "^TestC14Regress$", kind="plain"),
@@ -154,7 +157,7 @@ prop("C16", [
     S(CLIENT, "^TestC16$", q=20000, t=500000, shards=16),
 ], ["struct audit_status field offsets are written from the kernel header by hand; mask/feature bits and message types come from the header snapshot",
     "fields only partly covered by an odd-length buffer are not asserted"],
-   nontrivial_classes=["set-nonzero", "set-after-unacknowledged-set", "get", "get-repeated-on-one-client", "field-value-sweep", "set-long-run-without-waiting", "wire-too-short", "wire-decoded"] + ["set-" + s for s in
+   nontrivial_classes=["set-with-receive-error", "set-nonzero", "set-after-unacknowledged-set", "get", "get-repeated-on-one-client", "field-value-sweep", "set-long-run-without-waiting", "wire-too-short", "wire-decoded"] + ["set-" + s for s in
                        ["SetPID", "SetRateLimit", "SetBacklogLimit", "SetEnabled", "SetImmutable", "SetFailure", "SetBacklogWaitTime"]])
 
 prop("C17", [
@@ -173,6 +176,7 @@ prop("C18", [
     S(CLIENT, "^TestC18$", q=5000, t=100000, shards=4),
     S(CLIENT, "^TestC18Multicast$", kind="plain", q=200, t=20000),
     S(CLIENT, "^TestC18AuditClientBuffer$", kind="plain"),
+    S(CLIENT, "^TestC18FlagSweep$", kind="plain"),
     S(CLIENT, "^TestC18Uevent$", kind="plain", q=60, t=3000),
     S(CLIENT, "^TestC18Concurrent$", kind="plain", race=True, q=200, t=5000),
     # the same stress without the race detector: its instrumentation changes the timing so much that
@@ -182,9 +186,10 @@ prop("C18", [
     "only side-effect-free requests: NETLINK_ROUTE message types above RTM_MAX with the REQUEST flag, which the kernel refuses with EOPNOTSUPP and echoes",
     "a zero-length datagram cannot be sent between netlink sockets (ENODATA); it is covered at parser level only",
     "uevent stage: synthetic 'change' events for the loopback device are requested through /sys/class/net/lo/uevent (a broadcast of text, as udevadm trigger causes; no device state changes); skipped where that is not possible",
+    "flag sweep: a second socket on NETLINK_AUDIT, messages of the unknown type 1098 with every value of nlmsg_flags (the audit subsystem refuses the type with EINVAL before it looks at anything else and echoes the message)",
     "audit-client stage: one socket on NETLINK_AUDIT, requests of the unknown message type 1098 only (refused with EINVAL before the audit subsystem looks at anything else; no state is read or changed)",
     "multicast stage: addresses are added to and removed from the loopback device of a private network namespace (unshare on one locked thread); without the privilege the stage is skipped and its class stays empty"],
-   nontrivial_classes=["send-echoed", "send-reply-fills-read-buffer-exactly", "foreign-header-sized-refused", "foreign-short-refused", "parser-short", "parser-ok", "concurrent-batch", "concurrent-batch-with-failing-sends", "client-port-id-differs-from-process-id"])
+   nontrivial_classes=["flags-without-request-bit-echoed", "send-echoed", "send-reply-fills-read-buffer-exactly", "foreign-header-sized-refused", "foreign-short-refused", "parser-short", "parser-ok", "concurrent-batch", "concurrent-batch-with-failing-sends", "client-port-id-differs-from-process-id"])
 
 COAL = "props/coalesce"
 
